@@ -54,6 +54,7 @@ func runC11(r *engine.Run) {
 	agreeSync(r, "AGREE-sync")
 	orderWait(r, "ORDER-wait")
 	orderJoined(r, "ORDER-joined")
+	recordsEvery(r, "AGREE-purge")
 	domCleanFail(r, "DOM-cleanfail")
 	agreePersist(r, "AGREE-persist")
 	freshCopy(r, "FRESH-copy")
